@@ -10,7 +10,7 @@ PROPERTY = "C19"
 META = {
     "explanation": "symbolic execution of the real constructors with array extents as solver integers: 'constructed => shape is exactly the required one' and 'refused => shape differs' are decided for every extent, not a sampled grid",
     "bounds": {"quick": {"rank": "0-3", "extents": "every int in [0, 2^20] (symbolic)", "non_array_kinds": "list, tuple, None, str, float, int"},
-               "thorough": {"rank": "0-4", "extents": "every int in [0, 2^20] (symbolic)", "non_array_kinds": "list, tuple, None, str, float, int, bytes, dict", "dtypes": "f4,f8,i4,i2,u1 on the concrete accepted-shape leg"}},
+               "thorough": {"rank": "0-5", "extents": "every int in [0, 2^20] (symbolic)", "non_array_kinds": "list, tuple, None, str, float, int, bytes, dict", "dtypes": "f4,f8,i4,i2,u1 on the concrete accepted-shape leg"}},
     "outside_bounds": ["extents above 2^20", "ranks above 4", "BTS-format camera records (not listed by the property; coefficient count is a C02 precondition)"],
     "assumptions": ["constructors inspect only isinstance and .shape (an access to array data concretises the extents through the solver)"],
 }
@@ -346,7 +346,7 @@ def event_case(kind, values_kind, n):
 def instances(tier):
     q = tier == "quick"
     out = []
-    ranks = [0, 1, 2, 3] if q else [0, 1, 2, 3, 4]
+    ranks = [0, 1, 2, 3] if q else [0, 1, 2, 3, 4, 5]
     kinds = ["list", "tuple", "None", "str", "float", "int"] + ([] if q else ["bytes", "dict"])
     for ctor in ("Data3D", "ForceTorque3D", "CalibrationDataBlock", "SeelabCameraData"):
         req = {"Data3D": ["volume", "rotationMatrix", "translationVector"], "ForceTorque3D": ["volume", "rotationMatrix", "translationVector"],
@@ -389,7 +389,7 @@ def instances(tier):
         out.append(Instance(f"{ctor}.viewport.values", coercion_value_case(ctor), goals=["accepted"]))
     for kind in (0, 1):
         for vk in ("list", "tuple", "array", "array64"):
-            for n in ((0, 1, 2, 3) if q else (0, 1, 2, 3, 4)):
+            for n in ((0, 1, 2, 3) if q else (0, 1, 2, 3, 4, 5, 8)):
                 out.append(Instance(f"Event.kind{kind}.{vk}.{n}", event_case(kind, vk, n)))
         for vk in ("int", "float", "None"):
             out.append(Instance(f"Event.kind{kind}.{vk}", event_case(kind, vk, 0), goals=["refused"]))
